@@ -1,41 +1,231 @@
 package main
 
+import (
+	"fmt"
+	"go/types"
+	"sort"
+	"strings"
+
+	"golang.org/x/tools/go/ssa"
+)
+
 // Syntactic obligations: finite enumerations over the SSA of /repo that turn
 // universally quantified negatives ("nothing else writes X", "user code is
 // reached only through Y") into facts that are re-established on every run.
-
-type scanFn func(w *World) (ok bool, detail string)
-
-type scanDef struct {
-	name  string
-	props []string
-	what  string
-	run   scanFn
-}
-
-var scanRegistry []scanDef
+// They are declared in the contract files:
+//
+//	//@ scan[C02:called-write-sites] stores constructorNode.called <= (*dig.constructorNode).Call
+//
+// kinds: stores T.f (functions storing to field f of struct T), loads T.f,
+// calls-of-type T (calls through a value of named func type T), calls F
+// (static calls of the function whose key is F), builtin B, allocs T
+// (functions that create a T: composite literals, new, local variables),
+// methods M (named types of the verified packages that have a method M),
+// invokes I.M (interface method calls of method M on interface type I).
 
 func (w *World) runScans(prop string) []*obligation {
 	var out []*obligation
-	for _, sd := range scanRegistry {
+	for _, sd := range w.scans {
 		has := false
-		for _, p := range sd.props {
-			if p == prop {
-				has = true
+		var props []string
+		name := ""
+		for _, l := range sd.Labels {
+			if i := strings.Index(l, ":"); i >= 0 {
+				props = append(props, l[:i])
+				if name == "" {
+					name = l[i+1:]
+				}
+				if l[:i] == prop {
+					has = true
+				}
 			}
 		}
 		if !has {
 			continue
 		}
-		ok, detail := sd.run(w)
-		o := &obligation{Name: "scan#" + sd.name, Kind: "scan", Props: sd.props, Fn: "scan", Clause: sd.what, Solver: "ssa-enumeration", Inst: 1}
-		if ok {
-			o.Status = "discharged"
-		} else {
+		actual, err := w.scanSet(sd)
+		o := &obligation{Name: "scan#" + name, Kind: "scan", Props: props, Fn: "scan", Clause: sd.Src, Where: sd.Where, Solver: "ssa-enumeration", Inst: 1, Status: "discharged"}
+		if err != nil {
+			o.Status = "undecided"
+			o.Clause += " -- " + err.Error()
+			out = append(out, o)
+			continue
+		}
+		exp := map[string]bool{}
+		for _, e := range sd.Expect {
+			exp[e] = true
+		}
+		var extra, missing []string
+		for a := range actual {
+			if !exp[a] {
+				extra = append(extra, a)
+			}
+		}
+		for e := range exp {
+			if !actual[e] {
+				missing = append(missing, e)
+			}
+		}
+		sort.Strings(extra)
+		sort.Strings(missing)
+		if len(extra) > 0 || (sd.Op == "==" && len(missing) > 0) {
 			o.Status = "refuted"
-			o.Clause += " -- " + detail
+			o.Clause += fmt.Sprintf(" -- not in the listed set: %v; listed but absent: %v", extra, missing)
 		}
 		out = append(out, o)
 	}
 	return out
+}
+
+func (w *World) scanSet(sd *ScanDecl) (map[string]bool, error) {
+	out := map[string]bool{}
+	var keys []string
+	for k := range w.funcs {
+		keys = append(keys, k)
+	}
+	sort.Strings(keys)
+	fieldOf := func(target string) (string, string) {
+		i := strings.LastIndex(target, ".")
+		return target[:i], target[i+1:]
+	}
+	typeName := func(t types.Type) string {
+		for {
+			if p, ok := t.Underlying().(*types.Pointer); ok && t == t.Underlying() {
+				t = p.Elem()
+				continue
+			}
+			break
+		}
+		if n, ok := types.Unalias(t).(*types.Named); ok {
+			return n.Obj().Name()
+		}
+		return ""
+	}
+	switch sd.Kind {
+	case "methods":
+		for _, sp := range w.pkgs {
+			for _, m := range sp.Members {
+				tn, ok := m.(*ssa.Type)
+				if !ok {
+					continue
+				}
+				for _, t := range []types.Type{tn.Type(), types.NewPointer(tn.Type())} {
+					ms := w.prog.MethodSets.MethodSet(t)
+					for i := 0; i < ms.Len(); i++ {
+						if ms.At(i).Obj().Name() == sd.Target && ms.At(i).Obj().Pkg() == sp.Pkg {
+							// only methods declared on the type itself (not promoted)
+							if len(ms.At(i).Index()) == 1 {
+								out[shortPkg(sp.Pkg)+"."+tn.Name()] = true
+							}
+						}
+					}
+				}
+			}
+		}
+		return out, nil
+	}
+	for _, k := range keys {
+		fn := w.funcs[k]
+		if fn.Synthetic != "" {
+			continue
+		}
+		for _, b := range fn.Blocks {
+			for _, in := range b.Instrs {
+				hit := false
+				switch sd.Kind {
+				case "stores", "loads":
+					st, fld := fieldOf(sd.Target)
+					var addr ssa.Value
+					if s, ok := in.(*ssa.Store); ok && sd.Kind == "stores" {
+						addr = s.Addr
+					}
+					if u, ok := in.(*ssa.UnOp); ok && sd.Kind == "loads" && u.Op.String() == "*" {
+						addr = u.X
+					}
+					if fa, ok := addr.(*ssa.FieldAddr); ok {
+						if pt, ok := fa.X.Type().Underlying().(*types.Pointer); ok {
+							if typeName(pt.Elem()) == st {
+								if s, ok := pt.Elem().Underlying().(*types.Struct); ok && s.Field(fa.Field).Name() == fld {
+									hit = true
+								}
+							}
+						}
+					}
+				case "mapwrites":
+					// m[k] = v (or delete(m, k)) where m is read from field f of struct T
+					st, fld := fieldOf(sd.Target)
+					var mv ssa.Value
+					if mu, ok := in.(*ssa.MapUpdate); ok {
+						mv = mu.Map
+					}
+					if ci, ok := in.(ssa.CallInstruction); ok {
+						if bi, ok := ci.Common().Value.(*ssa.Builtin); ok && bi.Name() == "delete" {
+							mv = ci.Common().Args[0]
+						}
+					}
+					if u, ok := mv.(*ssa.UnOp); ok {
+						if fa, ok := u.X.(*ssa.FieldAddr); ok {
+							if pt, ok := fa.X.Type().Underlying().(*types.Pointer); ok && typeName(pt.Elem()) == st {
+								if s, ok := pt.Elem().Underlying().(*types.Struct); ok && s.Field(fa.Field).Name() == fld {
+									hit = true
+								}
+							}
+						}
+					} else if mv != nil {
+						// a map written through another route (parameter, local): report by map type
+						if sd.Target == "any."+typeKey(mv.Type()) {
+							hit = true
+						}
+					}
+				case "calls-of-type":
+					if ci, ok := in.(ssa.CallInstruction); ok {
+						c := ci.Common()
+						if !c.IsInvoke() && c.StaticCallee() == nil {
+							if n, ok := types.Unalias(c.Value.Type()).(*types.Named); ok && typeKey(n) == sd.Target {
+								hit = true
+							}
+						}
+					}
+				case "calls":
+					if ci, ok := in.(ssa.CallInstruction); ok {
+						if f := ci.Common().StaticCallee(); f != nil && fnKey(f) == sd.Target {
+							hit = true
+						}
+					}
+				case "invokes":
+					if ci, ok := in.(ssa.CallInstruction); ok {
+						c := ci.Common()
+						if c.IsInvoke() && typeKey(c.Value.Type())+"."+c.Method.Name() == sd.Target {
+							hit = true
+						}
+					}
+				case "builtin":
+					if ci, ok := in.(ssa.CallInstruction); ok {
+						if bi, ok := ci.Common().Value.(*ssa.Builtin); ok && bi.Name() == sd.Target {
+							hit = true
+						}
+					}
+				case "allocs":
+					if a, ok := in.(*ssa.Alloc); ok && typeKey(a.Type().(*types.Pointer).Elem()) == sd.Target {
+						hit = true
+					}
+					// zero-valued composite literals appear as constants
+					var ops []*ssa.Value
+					for _, op := range in.Operands(ops) {
+						if c, ok := (*op).(*ssa.Const); ok && c.Value == nil && typeKey(c.Type()) == sd.Target {
+							if _, isStruct := c.Type().Underlying().(*types.Struct); isStruct {
+								hit = true
+							}
+						}
+					}
+				default:
+					return nil, fmt.Errorf("unknown scan kind %q", sd.Kind)
+				}
+				if hit {
+					out[k] = true
+				}
+			}
+		}
+	}
+	return out, nil
 }
